@@ -85,6 +85,12 @@ def _corpus_programs():
         items = [["obj", [F(1, "C", I(1)), F(2, "C", ["err", 3], sh="i")]], ["obj", [F(1, "C", I(5), lv=1), F(2, "C", I(6))]]]
         items.insert(k, ["raise", k % 2])
         ps.append({"op": "mutation", "fields": [F(0, "C" if k else "S", ["list", k == 1, "obj", items], nn=(k == 2)), F(3, "C", I(3))]})
+    # meta fields selected at the mutation root of a wide operation, with introspection disabled
+    # (they are left out; the eight other fields keep their document order) and enabled
+    wide = [F(k, "C" if k in (2, 5) else ("S", "P", "A", "S")[k % 4], I(k + 1)) for k in range(8)]
+    ps.append({"op": "mutation", "fields": wide, "meta": [[3, "__typename"]], "nointro": True})
+    ps.append({"op": "mutation", "fields": wide, "meta": [[0, "__typename"]], "nointro": True, "layout": "shared"})
+    ps.append({"op": "mutation", "fields": wide, "meta": [[8, "__typename"]], "nointro": False})
     return ps
 
 
@@ -139,6 +145,8 @@ def generate(rng, tier):
         p["layout"] = LAYOUT_CYCLE[(j // 4) % 4]
         if ntop >= 2 and j % 2 == 1:
             p = gen_sched.add_render(rng, p)
+        if j % 3 == 2:
+            gen_sched.add_meta(rng, p)
         progs = [p]
         if op == "mutation" and (j % 2 == 0 or not quick):
             # failures at every position
@@ -150,7 +158,26 @@ def generate(rng, tier):
             cases.extend(c08._cases_for(q, limit, samples, rng.randrange(1 << 30)))
             if not quick and rng.random() < 0.3:
                 cases.append({"prog": q, "config": "threads", "limit": 0, "samples": 25, "seed": rng.randrange(1 << 30)})
+    cases.extend(meta_cases(rng, quick, "mutation"))
     return cases
+
+
+def meta_cases(rng, quick, op=None):
+    """wide operations (6-10 top-level fields, names of varied hashes) with `__typename` /
+    `__schema` selected at the root, with and without disable_introspection. Expected: with the
+    option on the meta fields are absent, with it off they carry their well-known values at their
+    document position; the other fields run and are reported in document order either way."""
+    out = []
+    for j in range(8 if quick else 40):
+        o = op or ("mutation" if j % 2 == 0 else "query")
+        ntop = 6 + j % 5
+        p = gen_sched.gen_program(rng, o, 1, 3, p_err=0.1, modes=("S", "S", "P", "P", "A", "V", "C", "D"),
+                                  top=(ntop, ntop), depth=1)
+        p["layout"] = LAYOUT_CYCLE[j % 4]
+        gen_sched.add_meta(rng, p, nointro=(j % 4 != 3))
+        out.extend(c08._cases_for(p, 24, 4, rng.randrange(1 << 30),
+                                  configs=("bexec", "brt", "aio", "pool", "prom")))
+    return out
 
 
 run_impl = c08.run_impl
